@@ -44,7 +44,7 @@ def corpus(ctx, theorem, pid):
 
 
 RULE = ("API histories (create; put/rm/mkdir/mkdirs/rmall with sizes on the 64-byte, 4096-byte and sector boundaries; up to 3 open handles "
-        "with write/seek/set_len/read/flush/close; reopen in both modes; net-zero cycles repeated 3-4 times; `churn` histories that fill the mini stream over 2-3 MiniFAT sectors, drain it from the end and fill it again) run on the real crate and on the "
+        "with write/seek/set_len/read/flush/close; reopen in both modes; net-zero cycles repeated 3-4 times; `churn` histories that fill the mini stream over 2-3 MiniFAT sectors, drain it from the end and fill it again; `many` histories with 35-70 directory entries in nested storages, slots freed and reused, then a recursive removal) run on the real crate and on the "
         "two-level Lean model (Dir + Phys) in lock-step: after EVERY call the result, the length and FNV-64 of the complete file image "
         "(the model renders header, FAT, DIFAT, MiniFAT, directory and data sectors, stale bytes of freed sectors included) and the allocator "
         "caches (num_sectors, fat.len, free_sectors in order, minifat.len, free_mini_sectors in order, dir_entries.len, MiniFAT start, mini stream start/len; hook H3) are compared. "
